@@ -37,7 +37,7 @@ ASSUMPTIONS = [
     "(the manual states that configparser's extended interpolation is what is used): generated inside [Tabulation] "
     "(nrho : ${nr}) and [Species]",
 ]
-REQUIRED = {"nested_placeholder": 20, "own_section_ref": 5, "lifted>=1": 100, "section_ref": 30, "unused_var": 60, "foreign_option_name": 40,
+REQUIRED = {"target_left_to_default": 4, "nested_placeholder": 20, "own_section_ref": 5, "lifted>=1": 100, "section_ref": 30, "unused_var": 60, "foreign_option_name": 40,
             "lift:Tabulation": 10, "lift:Pair": 15, "lift:Potential-Form": 5, "lift:Table-Form": 5, "lift:Species": 5}
 NUM = re.compile(r"(?<![\w.$\{:])-?\d+(?:\.\d+)?(?:e[+-]?\d+)?(?![\w.\}])")
 VAR_NAMES = ["v1", "alpha_v", "rho", "nsteps", "A_param", "cut2"]
@@ -53,6 +53,8 @@ def _case(draw, targets=None, focus=None):
         m["grid"]["nrho"] = m["grid"]["nr"]
         m["grid"]["cutoff_rho"] = m["grid"]["cutoff"]
     secs = anymodel.sections_of(m)
+    if focus == "defaults":
+        secs = [[n, [[k, v] for k, v in e if not (n == "Tabulation" and k == "target")]] for n, e in secs]
     spots = []
     for si, (n, ents) in enumerate(secs):
         for ei, (k, v) in enumerate(ents):
@@ -68,10 +70,16 @@ def _case(draw, targets=None, focus=None):
         # nested: the value the placeholder points at is itself written with a placeholder
         lifts.append({"spot": list(sp), "kind": kind, "name": name, "nested": draw(st.integers(0, 3)) == 0})
     unused = draw(st.lists(st.tuples(st.sampled_from(FOREIGN + VAR_NAMES),
-                                     st.sampled_from(["7", "0.25", "LAMMPS", "as.constant 1", "1 2 3 4", "cubic_spline"])),
+                                     st.sampled_from(["7", "0.25", "LAMMPS", "GULP", "as.constant 1", "1 2 3 4", "cubic_spline"])),
                            min_size=0, max_size=3, unique_by=lambda t: t[0]))
-    return {"model": m, "lifts": lifts, "unused": [list(u) for u in unused],
+    case = {"model": m, "lifts": lifts, "unused": [list(u) for u in unused],
             "route": draw(st.sampled_from(["inproc", "inproc", "main"]))}
+    if focus == "defaults":
+        # [Tabulation] leaves 'target' to its documented default (LAMMPS) while a variable nobody refers to happens to
+        # be called 'target' (or like another option that is left out)
+        case["omit_target"] = True
+        case["unused"] = [u for u in case["unused"] if u[0] != "target"] + [["target", draw(st.sampled_from(["GULP", "DL_POLY", "setfl", "excel"]))]]
+    return case
 
 
 def strategy(tier):
@@ -80,6 +88,7 @@ def strategy(tier):
 
 def strata(tier):
     return [("pair", _case(gen.PAIR_TARGETS), 4), ("eam", _case(sorted(gen.EAM_TARGETS)), 5),
+            ("defaults:target_left_out", _case(["LAMMPS"], "defaults"), 1),
             ("own_section", _case(sorted(gen.EAM_TARGETS), "own"), 2)]
 
 
@@ -94,6 +103,8 @@ def build(case):
     inadmissible (name clash with an option of the referencing section)"""
     m = case["model"]
     secs = anymodel.sections_of(m)
+    if case.get("omit_target"):
+        secs = [[n, [[k, v] for k, v in e if not (n == "Tabulation" and k == "target")]] for n, e in secs]
     plain = [[n, [[k, v] for k, v in e]] for n, e in secs]
     out = [[n, [[k, v] for k, v in e]] for n, e in secs]
     variables = {}
@@ -190,6 +201,8 @@ def build(case):
         out.insert(0, ["Variables", [[k, v] for k, v in variables.items()]])
     if case["lifts"]:
         cls.append("lifted>=1")
+    if case.get("omit_target"):
+        cls.append("target_left_to_default")
     return out, plain, sorted(set(cls))
 
 
